@@ -193,11 +193,13 @@ class _Gen(object):
         return ['with', self.expr(1), name, [['expr', self.expr(1)]]]
 
     def multi(self, depth, in_loop, in_func):
-        """A name bound in 2-6 alternative branches, read afterwards."""
+        """A name bound in 2-13 alternative branches, read afterwards."""
         r = self.r
         name = self.var()
-        n = r.choice((2, 3, 3, 4, 5, 6))
+        n = r.choice((2, 3, 3, 4, 5, 6, 6, 9, 10, 13))       # (wide joins: 8 and more alternatives)
         shape = r.choice(('ifchain', 'ifchain', 'try', 'nested', 'instances', 'instances', 'swap'))
+        if n >= 8:
+            shape = r.choice(('try', 'try', 'ifchain'))
         if shape == 'swap':
             # loop-carried mutual assignment of two names (an evaluation cycle), one of them also rebound in a branch
             other = r.choice([v for v in self.names if v != name] or [name + '2'])
@@ -245,7 +247,7 @@ class _Gen(object):
             hs = [[r.choice(('ValueError', 'KeyError', 'OSError')), None, [self.binding(name, depth, in_loop, in_func, j)]]
                   for j in range(1, max(2, n - 1))]
             st = ['try', [self.binding(name, depth, in_loop, in_func, 0)], hs,
-                  [self.binding(name, depth, in_loop, in_func, n)] if r.random() < 0.4 else None, None]
+                  [self.binding(name, depth, in_loop, in_func, n)] if r.random() < (0.4 if n < 8 else 0.8) else None, None]
         else:
             inner = ['if', self.expr(1), [self.binding(name, depth, in_loop, in_func, 0)], [],
                      [self.binding(name, depth, in_loop, in_func, 1)]]
